@@ -119,11 +119,22 @@ class Wiretap:
         for data in rewritten:
             try:
                 h = R.dec_header(data)
-                if h['exch'] != R.IKE_SA_INIT or h['length'] != len(data):
+                if h['length'] != len(data):
+                    continue
+                if h['exch'] != R.IKE_SA_INIT:
+                    # a protected REQUEST re-sealed by the interposer: from now on it is the request of that exchange (the
+                    # responder answers what it received).  Rewritten responses are judged by whoever rewrote them.
+                    if not h['R'] and (h['spi_i'], h['spi_r']) in self.sessions:
+                        n0 = len(self.messages)
+                        self._protected(dict(meta), data, h)
+                        for m in self.messages[n0:]:
+                            m['rewritten'] = True
                     continue
                 pls = [R.dec_payload(p) for p in R.dec_chain(data[28:], h['next'])]
             except R.DecodeError:
                 continue
+            self.messages.append({'t': self.w.now, 'sender': meta['sender'], 'h': h, 'payloads': pls, 'raw': bytes(data), 'session': None,
+                                  'clear': True, 'src': meta['src'], 'dst': meta['dst'], 'rewritten': True})
             if not h['R']:
                 self.init_reqs.setdefault(h['spi_i'], []).append((bytes(data), h, pls, meta['sender'], meta['src'], meta['dst']))
             elif any(p['type'] == R.P_SA for p in pls):
@@ -162,7 +173,7 @@ class Wiretap:
                 try:
                     R.sk_open(probe_data, suite, a, e)
                 except R.DecodeError as ex:
-                    if getattr(ex, 'kind', 'keys') not in ('icv_only', 'plaintext'):
+                    if getattr(ex, 'kind', 'keys') not in ('icv_only', 'icv_length', 'plaintext'):
                         continue          # (icv_only / plaintext: the keys fit, the message construction deviates - reported later)
                 s = Session(spi_i, spi_r)
                 s.keys, s.suite, s.ni, s.nr, s.shared = keys, suite, ni, nr, shared
@@ -233,7 +244,7 @@ class Wiretap:
                     self._note_keys(s, f'ike.gen{s.generation}.alt')
                     return self._protected(meta, data, h)
             kind = getattr(ex, 'kind', 'keys')
-            if kind in ('icv_only', 'plaintext', 'cleartext_beside_sk'):
+            if kind in ('icv_only', 'icv_length', 'plaintext', 'cleartext_beside_sk'):
                 # the keys are demonstrably right: what deviates is the construction of the protected message itself (C07)
                 return self.problem('protected_message_malformed', f'{sender}: protected exchange {h["exch"]} id {h["id"]} of IKE_SA '
                                     f'{h["spi_i"].hex()[:8]}: {ex}', meta, what=kind)
@@ -389,7 +400,8 @@ class Wiretap:
         self.children.append({
             't': self.w.now, 'session': s, 'initial': initial, 'pfs': shared is not None, 'rekey_of': rekey['spi'] if rekey else None,
             'x_init': x_init, 'x_resp': x_resp, 'x_init_addr': x_init_addr, 'x_resp_addr': x_resp_addr,
-            'spi_init': sa_q['proposals'][0]['spi'], 'spi_resp': chosen['spi'], 'proto': chosen['proto'],
+            'spi_init': next((p['spi'] for p in sa_q['proposals'] if p['num'] == chosen['num']), sa_q['proposals'][0]['spi']),
+            'spi_resp': chosen['spi'], 'proto': chosen['proto'],
             'encr_bits': (encr['keylen'] or 128) if encr else 0, 'integ': integ['id'], 'transport': transport_q and transport_r,
             'transport_q': transport_q, 'transport_r': transport_r,
             'tsi': tsi['selectors'] if tsi else [], 'tsr': tsr['selectors'] if tsr else [],
